@@ -142,7 +142,7 @@ var pureExternPrefixes = []string{
 	"(github.com/cosmos/cosmos-sdk/types.Coins).", "(github.com/cosmos/cosmos-sdk/types.DecCoins).", "(github.com/cosmos/cosmos-sdk/types.Coin).", "(github.com/cosmos/cosmos-sdk/types.DecCoin).",
 	"github.com/cosmos/cosmos-sdk/types.NewCoins", "github.com/cosmos/cosmos-sdk/types.NewCoin", "github.com/cosmos/cosmos-sdk/types.NewDecCoinsFromCoins", "github.com/cosmos/cosmos-sdk/types.NewDecCoins",
 	"github.com/cosmos/cosmos-sdk/types/address.Module",
-	"cosmossdk.io/errors.ABCIInfo", "strings.", "bytes.", "encoding/hex.", "strconv.", "crypto/sha256.Sum256", "github.com/cosmos/cosmos-sdk/types/address.MustLengthPrefix",
+	"cosmossdk.io/errors.ABCIInfo", "cosmossdk.io/math.LegacyNewDecFromStr", "(cosmossdk.io/math.LegacyDec).Mul", "(cosmossdk.io/math.LegacyDec).Quo", "(cosmossdk.io/math.LegacyDec).String", "strings.", "bytes.", "encoding/hex.", "strconv.", "crypto/sha256.Sum256", "github.com/cosmos/cosmos-sdk/types/address.MustLengthPrefix",
 	"(github.com/cosmos/cosmos-sdk/types.AccAddress).Bytes", "(github.com/cosmos/cosmos-sdk/types.ValAddress).Bytes",
 	"github.com/cosmos/cosmos-sdk/x/auth/types.NewModuleAddress",
 	"(github.com/cosmos/cosmos-sdk/x/staking/types.ValidatorI).", "(github.com/cosmos/cosmos-sdk/types.ModuleAccountI).", "(github.com/cosmos/cosmos-sdk/types.AccountI).", "(github.com/cosmos/cosmos-sdk/x/staking/types.Validator).",
